@@ -286,7 +286,8 @@ func (r *c13Run) pool() map[string]interface{} {
 	defer pool.mtx.Unlock()
 	peers := []map[string]interface{}{}
 	for id, p := range pool.peers {
-		peers = append(peers, map[string]interface{}{"p": r.nameOf(id), "base": int(p.base), "height": int(p.height), "to": p.didTimeout})
+		peers = append(peers, map[string]interface{}{"p": r.nameOf(id), "base": int(p.base), "height": int(p.height), "to": p.didTimeout,
+			"np": int(p.numPending)})
 	}
 	sort.Slice(peers, func(i, j int) bool { return peers[i]["p"].(string) < peers[j]["p"].(string) })
 	hs := []int64{}
@@ -294,19 +295,33 @@ func (r *c13Run) pool() map[string]interface{} {
 		hs = append(hs, h)
 	}
 	sort.Slice(hs, func(i, j int) bool { return hs[i] < hs[j] })
-	req := []map[string]interface{}{}
-	for _, h := range hs {
-		q := pool.requesters[h]
-		blk := "nil"
-		if b := q.getBlock(); b != nil {
-			blk = r.ch.uidOfBlock(b)
+	// BlockPool.numPending is changed under pool.mtx (makeNextRequester, AddBlock) and, by
+	// bpRequester.reset, under the requester's own lock only: read each requester under its lock
+	// and repeat until the counter did not move during the pass
+	var req []map[string]interface{}
+	var np int32
+	for try := 0; try < 8; try++ {
+		np = atomic.LoadInt32(&pool.numPending)
+		req = []map[string]interface{}{}
+		for _, h := range hs {
+			q := pool.requesters[h]
+			q.mtx.Lock()
+			b, id := q.block, q.peerID
+			q.mtx.Unlock()
+			blk := "nil"
+			if b != nil {
+				blk = r.ch.uidOfBlock(b)
+			}
+			pn := "nil"
+			if id != "" {
+				pn = r.nameOf(id)
+			}
+			// redo: the requester has been told to drop its peer (bpRequester.redo) and has not reset yet
+			req = append(req, map[string]interface{}{"h": int(h), "peer": pn, "blk": blk, "redo": len(q.redoCh) > 0})
 		}
-		pn := "nil"
-		if id := q.getPeerID(); id != "" {
-			pn = r.nameOf(id)
+		if atomic.LoadInt32(&pool.numPending) == np {
+			break
 		}
-		// redo: the requester has been told to drop its peer (bpRequester.redo) and has not reset yet
-		req = append(req, map[string]interface{}{"h": int(h), "peer": pn, "blk": blk, "redo": len(q.redoCh) > 0})
 	}
 	al := []string{}
 	for n := range r.alive {
@@ -314,7 +329,7 @@ func (r *c13Run) pool() map[string]interface{} {
 	}
 	sort.Strings(al)
 	return map[string]interface{}{"h": int(pool.height), "maxH": int(pool.maxPeerHeight), "peers": peers, "req": req,
-		"sw": al, "storeH": int(r.bstore.Height())}
+		"np": int(np), "sw": al, "storeH": int(r.bstore.Height())}
 }
 
 func (r *c13Run) nameOf(id p2p.ID) string {
@@ -768,9 +783,23 @@ func (r *c13Run) exec(s c13Step) bool {
 	case "Status":
 		return r.doStatus(s.P, s.Base, s.Height)
 	case "Response":
+		if s.H == 0 { // the lowest height the peer has been asked for
+			pend := r.pendingOf(s.P)
+			if len(pend) == 0 {
+				return false
+			}
+			return r.doResponse(s.P, pend[0], s.Kind)
+		}
 		return r.doResponse(s.P, s.H, s.Kind)
 	case "Timeout":
 		return r.doTimeout(s.P)
+	case "WaitReq":
+		// wait (for the condition, bounded) until the peer has been sent s.H block requests: every
+		// requester that picked it has stored the peer id by then
+		for i := 0; i < 20000 && len(r.pendingOf(s.P)) < int(s.H) && !r.isHanded(); i++ {
+			time.Sleep(500 * time.Microsecond)
+		}
+		return true
 	}
 	return false
 }
